@@ -75,7 +75,7 @@ enum F {
 }
 
 const COLS: &[&str] = &["k", "n", "x", "s", "b", "o", "arr", "msg", "status", "url", "t", "v", "host", "level"];
-const NEWNAMES: &[&str] = &["r", "y", "c1", "c2", "out", "ts", "tot", "res", "a b", "x-y", "max_latency", "sum_total", "p50x"];
+const NEWNAMES: &[&str] = &["r", "y", "c1", "c2", "out", "ts", "tot", "res", "a b", "x-y", "max_latency", "sum_total", "p50x", "it's", "a\"b"];
 
 fn gcol(r: &mut Rng) -> E {
     let h = if r.chance(5) { r.pick(&["max_latency", "sum_total", "p50x", "nullable", "trueish", "minute", "count_x"]).to_string() } else { r.pick(COLS).to_string() };
@@ -94,7 +94,7 @@ fn gcol(r: &mut Rng) -> E {
 }
 
 fn gstr(r: &mut Rng) -> String {
-    r.pick(&["a", "alpha", "GET", "err", "x y", "it's", "say \"hi\"", "back\\slash", "tab\there", "", "100%", ",", "d\\d+", "é"]).to_string()
+    r.pick(&["a", "alpha", "GET", "err", "x y", "it's", "say \"hi\"", "it's \"x\"", "'", "\"", "a\\'b", "back\\slash", "tab\there", "", "100%", ",", "d\\d+", "é"]).to_string()
 }
 
 fn gatom(r: &mut Rng) -> E {
@@ -309,7 +309,7 @@ fn b0(s: &mut Sp) -> &'static str {
 }
 
 /// a quoted string: either delimiter; the delimiter itself is written with a backslash inside, the
-/// OTHER quote character may be (`\\'` and `\\"` are escapes in both styles) but need not be
+/// OTHER quote character may be (`\'` and `\"` are escapes in both styles) but need not be
 fn squote(s: &mut Sp, text: &str) -> String {
     let q = if s.chance(50) { '"' } else { '\'' };
     let esc_other = text.contains(['"', '\'']) && s.chance(40);
@@ -1105,6 +1105,120 @@ pub const PAIRS: &[(&str, &str, &str)] = &[
     ("* | json | split(s) on \" \"", "* | json | split(s) on ' ' as s", ""),
 ];
 
+/* ---------- re-quoted spellings of a string that contains quote characters ---------- */
+
+/// every way to write `text` as a quoted string: either delimiter, the delimiter escaped, the other
+/// quote character bare or escaped although it need not be. The first one is the "natural" spelling
+/// (a delimiter that does not occur in the text, nothing escaped) when there is one.
+fn requote_spellings(text: &str) -> Vec<String> {
+    let order = if text.contains('"') { ['\'', '"'] } else { ['"', '\''] };
+    let mut out: Vec<String> = vec![];
+    for q in order {
+        for esc_other in [false, true] {
+            let s = spell_quoted(text, q, esc_other);
+            if !out.contains(&s) {
+                out.push(s);
+            }
+        }
+    }
+    out
+}
+
+/// what a reading that leaves the backslash of an escaped quote in place would take the text for
+fn with_backslashes(t: &str) -> String {
+    t.replace('\'', "\\'").replace('"', "\\\"")
+}
+
+/// an input on which the meaning of the string shows: records / lines holding the text itself and
+/// the text with a backslash before each quote character (as field value, field name, nested key,
+/// part of a longer value, part of a plain line), so that a spelling which is read as a different
+/// string selects / computes something else
+fn requote_input(t: &str) -> Vec<u8> {
+    let tb = with_backslashes(t);
+    let rec = |id: u32, msg: String, who: &str, key: Option<(&str, u32)>| -> String {
+        let mut m = serde_json::Map::new();
+        m.insert("id".into(), serde_json::json!(id));
+        m.insert("msg".into(), serde_json::json!(msg));
+        m.insert("who".into(), serde_json::json!(who));
+        if let Some((k, v)) = key {
+            m.insert(k.to_string(), serde_json::json!(v));
+            let mut o = serde_json::Map::new();
+            o.insert(k.to_string(), serde_json::json!(v + 10));
+            m.insert("o".into(), serde_json::Value::Object(o));
+            m.insert("sp".into(), serde_json::json!(format!("a{}b{}c", k, k)));
+        }
+        serde_json::Value::Object(m).to_string()
+    };
+    let mut lines = vec![
+        rec(1, t.to_string(), "ann", Some((t, 5))),
+        rec(2, tb.clone(), "bob", Some((&tb, 7))),
+        rec(3, "plain".into(), "cy", None),
+        rec(4, format!("x{}y", t), "dee", Some((t, 6))),
+        rec(5, format!("x{}z", tb), "eve", None),
+    ];
+    lines.push(format!("[{}] one", t));
+    lines.push(format!("[{}] two", tb));
+    lines.push(format!("pre {} post", t));
+    lines.push(format!("pre {} post", tb));
+    lines.push("nothing here".to_string());
+    (lines.join("\n") + "\n").into_bytes()
+}
+
+const REQUOTE_TEXTS: &[&str] = &["it's", "say \"hi\"", "it's \"x\"", "'", "\"", "'lead", "trail\"", "a\\'b", "''", "é\"ü'"];
+
+/// (position, what the quoted string is made of: the text itself or a pattern around it, query with `§`
+/// where the quoted string goes — every position of the grammar that takes one)
+const REQUOTE_TEMPLATES: &[(&str, &str, &str)] = &[
+    ("where-literal", "§", "* | json | where msg == § | fields id, who"),
+    ("where-literal-lhs", "§", "* | json | where § == msg | fields id"),
+    ("where-literal-ne", "§", "* | json | where msg != § | fields id"),
+    ("concat-argument", "§", "* | json | concat(who, §) as owner | count by owner | sort by owner"),
+    ("contains-argument", "§", "* | json | where contains(msg, §) | count"),
+    ("if-condition", "§", "* | json | if(msg == §, 'y', 'n') as r | count by r | sort by r"),
+    ("literal-column", "§", "* | json | § as lit | fields id, lit"),
+    ("search-keyword", "§", "§ | count"),
+    ("search-keyword-not", "§", "NOT § | count"),
+    ("search-keyword-or", "§", "(§ OR nothing) | count"),
+    ("search-keyword-and", "§", "§ pre | count"),
+    ("identifier", "§", "* | json | [§] + 1 as y | fields id, y"),
+    ("identifier-as", "§", "* | json | id * 2 as [§] | sum([§]) as s"),
+    ("identifier-fields", "§", "* | json | fields [§]"),
+    ("identifier-fields-except", "§", "* | json | fields except [§], o, sp, msg"),
+    ("identifier-nested", "§", "* | json | o.[§] as y | fields id, y"),
+    ("identifier-aggregate", "§", "* | json | sum([§]) as s, count by who | sort by who"),
+    ("identifier-sort", "§", "* | json | fields id, [§] | sort by [§] desc"),
+    ("split-separator", "§", "* | json | split(sp) on § as parts | fields id, parts"),
+    ("parse-pattern", "[§] *", "* | parse § as rest | count by rest | sort by rest"),
+    ("parse-pattern-from", "x§*", "* | json | parse § from msg as rest | fields id, rest"),
+    ("parse-pattern-nodrop", "pre § *", "* | parse § as rest nodrop | fields rest"),
+    ("parse-regex-pattern", "\\[§\\] (?P<rest>[a-z]+)", "* | parse regex § | count by rest | sort by rest"),
+];
+
+/// C20 "quote style": all the ways to write one string between quotes denote the same string, in
+/// every position; checked pairwise against the first spelling (acceptance, AST, `-o json` output)
+fn requote_checks(ctx: &mut Ctx, rep: &mut Rep) {
+    let mut i = 0usize;
+    for t in REQUOTE_TEXTS {
+        let input = requote_input(t);
+        for (pos, shape, tpl) in REQUOTE_TEMPLATES {
+            i += 1;
+            if i % ctx.nshards != ctx.shard {
+                continue;
+            }
+            let sps = requote_spellings(&shape.replace('§', t));
+            let q1 = tpl.replace('§', &sps[0]);
+            // the reference spelling should select / compute something on this input
+            let shows = run_stdout(&q1, &input).map_or(false, |o| o.iter().filter(|b| !b.is_ascii_whitespace()).count() > 2);
+            ctx.count(if shows { "requote:reference-output-nonempty" } else { "requote:reference-output-empty" });
+            for sp in &sps[1..] {
+                let q2 = tpl.replace('§', sp);
+                ctx.count(&format!("requote:{}", pos));
+                pair(ctx, rep, "requote", &q1, &q2, &input, "");
+            }
+        }
+    }
+}
+
 pub fn check(ctx: &mut Ctx) {
     let mut rep = Rep::new("C20");
     if let Some(path) = ctx.replay.clone() {
@@ -1127,6 +1241,7 @@ pub fn check(ctx: &mut Ctx) {
             pair(ctx, &mut rep, "fixed-pair", a, b, c04::PROBE.as_bytes(), class);
         }
     }
+    requote_checks(ctx, &mut rep);
     if ctx.shard == 0 {
         alias_checks(ctx, &mut rep);
     }
